@@ -166,6 +166,30 @@ def spec_insert_synset_relations(synsets, lexid, lexidmap, cur, progress):
               for ss in synsets for r in ss.get('relations', [])])]
 
 
+def spec_insert_sense_relations(lexicon, lexid, lexidmap, cur, progress):
+    # a relation of a sense goes to sense_relations when its target is a sense id of the lexicon, to
+    # sense_synset_relations when it is a synset id; source and target are resolved in the lexicon that owns them
+    entries = lexicon.get('entries', [])
+    sense_ids = {s['id'] for e in entries for s in e.get('senses', [])}
+    synset_ids = {ss['id'] for ss in lexicon.get('synsets', [])}
+    return [
+        ('insert', 'sense_relations', None,
+         [row(lexicon_rowid=lexid,
+              source_rowid=ROWID('senses', id=s['id'], lexicon_rowid=owner(lexidmap, s['id'], lexid)),
+              target_rowid=ROWID('senses', id=r['target'], lexicon_rowid=owner(lexidmap, r['target'], lexid)),
+              type_rowid=ROWID('relation_types', type=r['relType']), metadata=r['meta'])
+          for e in entries for s in e.get('senses', []) for r in s.get('relations', [])
+          if r['target'] in sense_ids]),
+        ('insert', 'sense_synset_relations', None,
+         [row(lexicon_rowid=lexid,
+              source_rowid=ROWID('senses', id=s['id'], lexicon_rowid=owner(lexidmap, s['id'], lexid)),
+              target_rowid=ROWID('synsets', id=r['target'], lexicon_rowid=owner(lexidmap, r['target'], lexid)),
+              type_rowid=ROWID('relation_types', type=r['relType']), metadata=r['meta'])
+          for e in entries for s in e.get('senses', []) for r in s.get('relations', [])
+          if r['target'] not in sense_ids and r['target'] in synset_ids]),
+    ]
+
+
 def spec_insert_examples(objs, lexid, lexidmap, table, cur, progress):
     parent = 'senses' if table == 'sense_examples' else 'synsets'
     return [('insert', table, None,
